@@ -1,10 +1,12 @@
 #!/bin/bash
-# usage: m2sweep.sh C04 C05 ...  -> validates round-2 changes in /tmp/r2/m2-<P>-out against the check of <P> (with the suite)
+# usage: m2sweep.sh [--suite] C04 C05 ...  -> runs the check of <P> against the round-2 changes kept in /verif/pending/<P>-m<k>
+SUITE=""; if [ "$1" == "--suite" ]; then SUITE="--suite"; shift; fi
 for P in "$@"; do
-  for f in /tmp/r2/m2-$P-out/mut*.diff; do
-    k=$(basename $f .diff | sed 's/mut//')
-    ( timeout 2400 /venv/bin/python /verif/tools/seedtest.py $P $f /tmp/r2/m2-$P-out/demo$k.py --suite | /venv/bin/python -c "
-import json,sys; r=json.load(sys.stdin); print('$P-m$k', 'apply',r['apply'],'demo',r['demo_clean'],r['demo_mut'], 'suite', r.get('suite'), {p:(v['exit'],[x.split('instance=')[-1][:70] for x in v['fails'][:2]]) for p,v in r['checks'].items()})" ) &
+  for d in /verif/pending/$P-m* /verif/seeded/$P-m*; do
+    [ -f $d/patch.diff ] || continue
+    k=$(basename $d)
+    ( timeout 2400 /venv/bin/python /verif/tools/seedtest.py $P $d/patch.diff $d/demo.py $SUITE | /venv/bin/python -c "
+import json,sys; r=json.load(sys.stdin); print('$k', 'apply',r['apply'],'demo',r['demo_clean'],r['demo_mut'], r.get('suite',''), {p:(v['exit'],[x.split('instance=')[-1][:70] for x in v['fails'][:2]]) for p,v in r['checks'].items()})" ) &
   done
 done
 wait
